@@ -95,6 +95,10 @@ def main():
         tb = traceback.format_exc()
         rep.obligation('check machinery ran to completion', False, tb)
         rep.violation('machinery', {'traceback': tb, 'what': 'the check itself crashed: %r' % (ex,)}, no_input=True)
+    if rep.cov['discharged'] < rep.cov['obligations'] and not rep.violations and not rep.known_hits:
+        failed = [o for o in rep.cov.get('obligation_list', []) if not o['ok']]
+        rep.violation('unproved', {'what': 'obligation(s) not discharged and no failing input was found',
+                                   'failed_obligations': failed}, no_input=True)
     return rep.finish()
 
 
